@@ -13,8 +13,10 @@ Require Import Cirbo.Model.Base Cirbo.Model.Gate Cirbo.Model.Den Cirbo.Model.Cir
 Require Import Cirbo.Generated.ArithTables Cirbo.Generated.ArithCells.
 Require Import Cirbo.Model.ArithSub Cirbo.Model.ArithSum2 Cirbo.Model.ArithDiv Cirbo.Model.ArithSqrt
   Cirbo.Model.ArithMisc.
+Require Import Cirbo.Model.ArithGen.
 Require Import Cirbo.Proofs.BuilderFacts Cirbo.Proofs.ArithFacts Cirbo.Proofs.ArithSubFacts
-  Cirbo.Proofs.ArithSum2Facts Cirbo.Proofs.ArithMiscFacts.
+  Cirbo.Proofs.ArithSum2Facts Cirbo.Proofs.ArithMiscFacts Cirbo.Proofs.ArithDivFacts
+  Cirbo.Proofs.ArithSqrtFacts Cirbo.Proofs.ArithGenFacts.
 Open Scope Z_scope.
 
 (* ---- the builder layer ---------------------------------------------------------------- *)
@@ -69,6 +71,36 @@ Theorem C09_sub_with_compare_exact : forall fresh xs ys be s rs bor s',
       bv = (decode be xv <? decode be yv).
 Proof. exact add_subtract_with_compare_correct. Qed.
 
+(* ---- division and square root (all widths) --------------------------------------------- *)
+(* add_div_mod raises unless both operands have the same, non-zero width *)
+Theorem C09_div_mod_exact : forall fresh xs ys be s qs rs s',
+  run fresh (add_div_mod xs ys be) s = Ok ((qs, rs), s') ->
+  ext (bc s) (bc s') /\ inputs (bc s') = inputs (bc s) /\ outputs (bc s') = outputs (bc s) /\
+  length ys = length xs /\ length qs = length xs /\ length rs = length xs /\
+  forall asg xv yv, bvals (bc s) asg xs xv -> bvals (bc s) asg ys yv ->
+    exists qv rv, bvals (bc s') asg qs qv /\ bvals (bc s') asg rs rv /\
+      decode be qv = (if decode be yv =? 0 then 0 else decode be xv / decode be yv) /\
+      decode be rv = (if decode be yv =? 0 then 0 else decode be xv mod decode be yv).
+Proof. exact add_div_mod_correct. Qed.
+
+(* floor(sqrt) on ceil(n/2) bits *)
+Theorem C09_sqrt_exact : forall fresh xs be s rs s',
+  run fresh (add_sqrt xs be) s = Ok (rs, s') ->
+  ext (bc s) (bc s') /\ inputs (bc s') = inputs (bc s) /\ outputs (bc s') = outputs (bc s) /\
+  length rs = ((length xs + 1) / 2)%nat /\
+  forall asg xv, bvals (bc s) asg xs xv ->
+    exists rv, bvals (bc s') asg rs rv /\ decode be rv = Z.sqrt (decode be xv).
+Proof. exact add_sqrt_correct. Qed.
+
+(* the ripple adder used by add_sqrt *)
+Theorem C09_sum_two_numbers_exact : forall fresh xs ys be s rs s',
+  run fresh (add_sum_two_numbers xs ys be) s = Ok (rs, s') ->
+  ext (bc s) (bc s') /\ inputs (bc s') = inputs (bc s) /\ outputs (bc s') = outputs (bc s) /\
+  length rs = S (Nat.max (length xs) (length ys)) /\
+  forall c, ext (bc s') c -> forall asg xv yv, bvals c asg xs xv -> bvals c asg ys yv ->
+    exists rv, bvals c asg rs rv /\ decode be rv = decode be xv + decode be yv.
+Proof. exact add_sum_two_numbers_correct. Qed.
+
 (* ---- equality with a constant -------------------------------------------------------- *)
 (* (bits_val xv =? num) is False for every operand value when num is negative or >= 2^n *)
 Theorem C09_equal_exact : forall fresh xs num s r s',
@@ -116,6 +148,70 @@ Theorem C09_pairwise_xor_exact : forall fresh xs ys res ao s r s',
     bvals (bc s') asg r (map2 xorb xv yv).
 Proof. exact add_pairwise_xor_correct. Qed.
 
+(* ---- the generate_* wrappers --------------------------------------------------------------- *)
+(* `assigns asg ins bs`: the assignment gives the inputs ins the Boolean values bs *)
+Theorem C09_generate_sub_two_numbers : forall fresh k0 ins size_a be c,
+  generate_sub_two_numbers fresh k0 ins size_a be = Ok c ->
+  inputs c = ins /\ length (outputs c) = length (firstn size_a ins) /\
+  forall asg bs, assigns asg ins bs ->
+    exists rv, bvals c asg (outputs c) rv /\
+      decode be rv = (decode be (firstn size_a bs) - decode be (skipn size_a bs))
+                     mod 2 ^ Z.of_nat (length (firstn size_a ins)).
+Proof. exact generate_sub_two_numbers_correct. Qed.
+
+Theorem C09_generate_div_mod : forall fresh k0 ins n be c,
+  generate_div_mod fresh k0 ins n be = Ok c ->
+  inputs c = ins /\ length (skipn n ins) = length (firstn n ins) /\
+  exists qs rs, outputs c = qs ++ rs /\ length qs = length (firstn n ins) /\ length rs = length (firstn n ins) /\
+  forall asg bs, assigns asg ins bs ->
+    exists qv rv, bvals c asg qs qv /\ bvals c asg rs rv /\
+      let A := decode be (firstn n bs) in let B := decode be (skipn n bs) in
+      decode be qv = (if B =? 0 then 0 else A / B) /\ decode be rv = (if B =? 0 then 0 else A mod B).
+Proof. exact generate_div_mod_correct. Qed.
+
+Theorem C09_generate_sqrt : forall fresh k0 ins be c,
+  generate_sqrt fresh k0 ins be = Ok c ->
+  inputs c = ins /\ length (outputs c) = ((length ins + 1) / 2)%nat /\
+  forall asg bs, assigns asg ins bs ->
+    exists rv, bvals c asg (outputs c) rv /\ decode be rv = Z.sqrt (decode be bs).
+Proof. exact generate_sqrt_correct. Qed.
+
+Theorem C09_generate_equal : forall fresh k0 ins num c,
+  generate_equal fresh k0 ins num = Ok c -> ins <> [] ->
+  inputs c = ins /\ exists o, outputs c = [o] /\
+  forall asg bs, assigns asg ins bs -> bval c asg o (bits_val bs =? num).
+Proof. exact generate_equal_correct. Qed.
+
+Theorem C09_generate_plus_one : forall fresh k0 xs zs be c,
+  generate_plus_one fresh k0 xs zs be = Ok c ->
+  inputs c = xs /\ outputs c = zs /\
+  forall asg bs, assigns asg xs bs ->
+    exists rv, bvals c asg zs rv /\ decode be rv = (decode be bs + 1) mod 2 ^ Z.of_nat (length zs).
+Proof. exact generate_plus_one_correct. Qed.
+
+Theorem C09_generate_if_then_else : forall fresh k0 i t e r c,
+  generate_if_then_else fresh k0 i t e r = Ok c ->
+  inputs c = [i; t; e] /\ outputs c = [r] /\
+  forall asg iv tv ev, assigns asg [i; t; e] [iv; tv; ev] -> bval c asg r (if iv then tv else ev).
+Proof. exact generate_if_then_else_correct. Qed.
+
+Theorem C09_generate_pairwise_if_then_else : forall fresh k0 is_ ts es rs c,
+  generate_pairwise_if_then_else fresh k0 is_ ts es rs = Ok c ->
+  inputs c = is_ ++ ts ++ es /\ outputs c = rs /\
+  length ts = length is_ /\ length es = length is_ /\ length rs = length is_ /\
+  forall asg bs, assigns asg (is_ ++ ts ++ es) bs ->
+    let n := length is_ in
+    bvals c asg rs (map3 (fun i t e : bool => if i then t else e)
+                         (firstn n bs) (firstn n (skipn n bs)) (skipn n (skipn n bs))).
+Proof. exact generate_pairwise_if_then_else_correct. Qed.
+
+Theorem C09_generate_pairwise_xor : forall fresh k0 xs ys rs c,
+  generate_pairwise_xor fresh k0 xs ys rs = Ok c ->
+  inputs c = xs ++ ys /\ outputs c = rs /\ length ys = length xs /\ length rs = length xs /\
+  forall asg bs, assigns asg (xs ++ ys) bs ->
+    bvals c asg rs (map2 xorb (firstn (length xs) bs) (skipn (length xs) bs)).
+Proof. exact generate_pairwise_xor_correct. Qed.
+
 (* ---- non-vacuity: the generators do return Ok ---------------------------------------- *)
 Example C09_example_runs :
   let host := mkCircuit ["a"; "b"; "c"] ["g"]
@@ -128,5 +224,7 @@ Example C09_example_runs :
   is_ok (run short_label (add_pairwise_if_then_else ["a"] ["g"] ["c"] (Some ["r"]) true) (mkB host 1)) = true /\
   is_ok (run short_label (add_pairwise_xor ["a"; "b"] ["g"; "c"] None true) (mkB host 1)) = true /\
   is_ok (run short_label (add_div_mod ["a"; "g"] ["c"; "b"] false) (mkB host 1)) = true /\
-  is_ok (run short_label (add_sqrt ["a"; "g"; "c"] false) (mkB host 1)) = true.
+  is_ok (run short_label (add_sqrt ["a"; "g"; "c"] false) (mkB host 1)) = true /\
+  is_ok (generate_div_mod short_label 1 ["0"; "1"; "2"; "3"] 2 true) = true /\
+  is_ok (generate_plus_one short_label 1 ["x_1"; "x_0"] ["z_2"; "z_1"; "z_0"] true) = true.
 Proof. vm_compute. repeat split. Qed.
